@@ -353,7 +353,15 @@ func InspectOwn(f *Fn, visit func(ast.Node) bool) {
 // order) against the dependencies already loaded for p.  Used by the liveness self-test: nothing
 // is written to disk.
 func (p *Prog) Mutate(rel string, src []byte) (*Prog, error) {
-	target := filepath.Join(p.Dir, rel)
+	return p.MutateFiles(map[string][]byte{rel: src})
+}
+
+// MutateFiles is Mutate for several files at once (paths relative to the repository root).
+func (p *Prog) MutateFiles(edits map[string][]byte) (*Prog, error) {
+	targets := map[string][]byte{}
+	for rel, src := range edits {
+		targets[filepath.Join(p.Dir, rel)] = src
+	}
 	fset := token.NewFileSet()
 	q := &Prog{Dir: p.Dir, Fset: fset, ByRel: map[string]*packages.Package{}, FnByName: map[string]*Fn{},
 		FnByObj: map[*types.Func]*Fn{}, FnByLit: map[*ast.FuncLit]*Fn{}, FnByBody: map[*ast.BlockStmt]*Fn{},
@@ -386,7 +394,7 @@ func (p *Prog) Mutate(rel string, src []byte) (*Prog, error) {
 		var files []*ast.File
 		for _, fn := range old.CompiledGoFiles {
 			var content interface{}
-			if fn == target {
+			if src, ok := targets[fn]; ok {
 				content = src
 			}
 			f, err := parser.ParseFile(fset, fn, content, parser.ParseComments)
